@@ -685,8 +685,14 @@ class ExchangeRate:
         mult = Decimal(10) ** (unit_multiple.magnitude
                                - min(0, magnitude_term_amount + 1))
         assert isinstance(mult, Decimal)
+        term_amount = term_amount * mult / unit_multiple
+        if term_amount < Decimal("0.1"):
+            # unit_multiple is not a power to 10, so the division lowered
+            # the magnitude of term_amount by one more
+            mult *= 10
+            term_amount *= 10
         self._unit_multiple = mult
-        self._term_amount = Decimal(term_amount * mult / unit_multiple, 6)
+        self._term_amount = Decimal(term_amount, 6)
 
     @property
     def unit_currency(self) -> Currency:
